@@ -125,8 +125,8 @@ TClose     == Is("close") /\ EClose(Ev.w) /\ Consume
 TCancel    == Is("cancel") /\ ECancel /\ Consume
 
 (* observations of the stream *)
-\* the k-th line was received (and sent before that)
-TLine == /\ Is("line") /\ NSent >= Ev.k /\ out[Ev.k].line = Ev.b
+\* the k-th line was received (and sent before that); the one consumer sees the close after every line
+TLine == /\ Is("line") /\ NSent >= Ev.k /\ out[Ev.k].line = Ev.b /\ ~chanClosed
          /\ UNCHANGED vars /\ Consume
 TChanClosed == /\ Is("chanclosed") /\ NSent = Len(AllLines)
                /\ SCloseChan \/ (~Sock /\ SExit(0))
